@@ -41,7 +41,7 @@ def gen_params(rng):
         kids = rng.choice([["kid1", "kid2"], ["zoe", "amy"], ["b_kid", "a_kid"]])
         samples, ped = ["dad", "mom"] + kids, [("dad", "mom", kids[0]), ("dad", "mom", kids[1])]
     elif mode == "trio_plus":
-        samples, ped = ["dad", "mom", "kid", "loner"], [("dad", "mom", "kid")]
+        samples, ped = ["dad", "mom", "kid", rng.choice(["loner", "aunt", "zed"])], [("dad", "mom", "kid")]
     else:
         samples = ["dadA", "momA", "kidA", "dadB", "momB", "kidB"]
         ped = [("dadA", "momA", "kidA"), ("dadB", "momB", "kidB")]
@@ -73,6 +73,8 @@ def gen_params(rng):
     opts = {"reference": False, "tag": rng.choice(["PS", "HP"]), "max_coverage": rng.choice([6, 15])}
     if rng.random() < 0.25:
         opts["genetic_haplotyping"] = False
+    if rng.random() < 0.3:
+        opts["via_cli"] = True  # through whatshap's argument parser and main(): the defaults a user gets
     r = rng.random()
     if r < 0.3:
         opts["recombrate"] = rng.choice([0.01, 1.26, 50.0])
@@ -201,6 +203,8 @@ def run_one(rng, counters):
                     cm += rng.choice([0.0, 0.001, 0.05])
                     fh.write("%d %.4f %.6f\n" % (pos, rng.random() * 5, cm))
             ro["genmap"] = gm
+            if ro.get("via_cli"):
+                ro["chromosomes"] = ["chr1"]  # the command line accepts --genmap only together with exactly one --chromosome
         out = os.path.join(tmp, "out.vcf")
         rl = os.path.join(tmp, "recomb.tsv")
         ro["recombination_list_filename"] = rl
@@ -211,6 +215,8 @@ def run_one(rng, counters):
         if status != "ok":
             return [pipeline.crash_violation(msg) if status == "crash" else {"mech": "unexpected-error", "msg": msg}], False, desc
         counters["runs_ok"] = counters.get("runs_ok", 0) + 1
+        if opts.get("via_cli"):
+            counters["runs_via_command_line"] = counters.get("runs_via_command_line", 0) + 1
         before = (counters.get("transmission_checks", 0), counters.get("excluded_variants_checked", 0), counters.get("readfree_rule_checked", 0))
         viol = judge_mendel(sim, trace, open(out).read(), opts, counters)
         viol += judge_recomb_list(trace, rl, counters)
